@@ -94,6 +94,12 @@ Gen/BitbaseDump.vos Gen/BitbaseDump.vok Gen/BitbaseDump.required_vos: Gen/Bitbas
 Gen/Consts.vo Gen/Consts.glob Gen/Consts.v.beautified Gen/Consts.required_vo: Gen/Consts.v 
 Gen/Consts.vio: Gen/Consts.v 
 Gen/Consts.vos Gen/Consts.vok Gen/Consts.required_vos: Gen/Consts.v 
+Gen/Layout.vo Gen/Layout.glob Gen/Layout.v.beautified Gen/Layout.required_vo: Gen/Layout.v 
+Gen/Layout.vio: Gen/Layout.v 
+Gen/Layout.vos Gen/Layout.vok Gen/Layout.required_vos: Gen/Layout.v 
+Gen/LayoutAst.vo Gen/LayoutAst.glob Gen/LayoutAst.v.beautified Gen/LayoutAst.required_vo: Gen/LayoutAst.v 
+Gen/LayoutAst.vio: Gen/LayoutAst.v 
+Gen/LayoutAst.vos Gen/LayoutAst.vok Gen/LayoutAst.required_vos: Gen/LayoutAst.v 
 Gen/MagicData.vo Gen/MagicData.glob Gen/MagicData.v.beautified Gen/MagicData.required_vo: Gen/MagicData.v 
 Gen/MagicData.vio: Gen/MagicData.v 
 Gen/MagicData.vos Gen/MagicData.vok Gen/MagicData.required_vos: Gen/MagicData.v 
@@ -190,6 +196,9 @@ Props/Properties_C08.vos Props/Properties_C08.vok Props/Properties_C08.required_
 Props/Properties_C09.vo Props/Properties_C09.glob Props/Properties_C09.v.beautified Props/Properties_C09.required_vo: Props/Properties_C09.v Gen/Consts.vo Engine/SearchDriver.vo Engine/SearchDriverProofs.vo
 Props/Properties_C09.vio: Props/Properties_C09.v Gen/Consts.vio Engine/SearchDriver.vio Engine/SearchDriverProofs.vio
 Props/Properties_C09.vos Props/Properties_C09.vok Props/Properties_C09.required_vos: Props/Properties_C09.v Gen/Consts.vos Engine/SearchDriver.vos Engine/SearchDriverProofs.vos
+Props/Properties_C10.vo Props/Properties_C10.glob Props/Properties_C10.v.beautified Props/Properties_C10.required_vo: Props/Properties_C10.v Gen/Consts.vo Gen/Layout.vo Gen/LayoutAst.vo Engine/SearchDriver.vo Engine/SearchDriverProofs.vo
+Props/Properties_C10.vio: Props/Properties_C10.v Gen/Consts.vio Gen/Layout.vio Gen/LayoutAst.vio Engine/SearchDriver.vio Engine/SearchDriverProofs.vio
+Props/Properties_C10.vos Props/Properties_C10.vok Props/Properties_C10.required_vos: Props/Properties_C10.v Gen/Consts.vos Gen/Layout.vos Gen/LayoutAst.vos Engine/SearchDriver.vos Engine/SearchDriverProofs.vos
 Props/Properties_C11.vo Props/Properties_C11.glob Props/Properties_C11.v.beautified Props/Properties_C11.required_vo: Props/Properties_C11.v Engine/Magic.vo Engine/MagicProofs.vo Props/C11Glue.vo Gen/MagicData.vo Props/C11Sweep_R0.vo Props/C11Sweep_R1.vo Props/C11Sweep_R2.vo Props/C11Sweep_R3.vo Props/C11Sweep_R4.vo Props/C11Sweep_R5.vo Props/C11Sweep_R6.vo Props/C11Sweep_R7.vo Props/C11Sweep_B.vo
 Props/Properties_C11.vio: Props/Properties_C11.v Engine/Magic.vio Engine/MagicProofs.vio Props/C11Glue.vio Gen/MagicData.vio Props/C11Sweep_R0.vio Props/C11Sweep_R1.vio Props/C11Sweep_R2.vio Props/C11Sweep_R3.vio Props/C11Sweep_R4.vio Props/C11Sweep_R5.vio Props/C11Sweep_R6.vio Props/C11Sweep_R7.vio Props/C11Sweep_B.vio
 Props/Properties_C11.vos Props/Properties_C11.vok Props/Properties_C11.required_vos: Props/Properties_C11.v Engine/Magic.vos Engine/MagicProofs.vos Props/C11Glue.vos Gen/MagicData.vos Props/C11Sweep_R0.vos Props/C11Sweep_R1.vos Props/C11Sweep_R2.vos Props/C11Sweep_R3.vos Props/C11Sweep_R4.vos Props/C11Sweep_R5.vos Props/C11Sweep_R6.vos Props/C11Sweep_R7.vos Props/C11Sweep_B.vos
